@@ -8,9 +8,9 @@ THEOREMS = [
     "C07_file_levels_increasing", "C07_file_levels_increasing_two_pass",
     "C07_sections_ok", "C07_zoom_query_sections", "C07_zoom_query",
     "C07_sections_sorted", "C07_chrom_ordered", "C07_level_sections_sorted",
-    "C07_f32_pattern_fits", "C07_zoom_record_codec", "C07_zoom_block_read",
+    "C07_f32_pattern_fits", "C07_f32_store_load", "C07_stat_read_value_ieee", "C07_zoom_record_codec", "C07_zoom_block_read",
     "C07_level_regions", "C07_level_regions_two_pass",
-    "C07_file_zoom_query", "C07_file_zoom_query_two_pass", "C07_file_zoom_query_complete",
+    "C07_file_zoom_query", "C07_file_zoom_query_two_pass", "C07_minmax_read_exact", "C07_file_zoom_query_complete",
     "C07_gap_refuted_before_fix", "C07_minmax_refuted_before_fix",
 ]
 
